@@ -149,13 +149,13 @@ def generic_resolver(mf, crate_prefixes):
                 continue
             if self_ty is not None:
                 if f.nargs == 0:
-                    if self_ty in f.ret_ty and "impl at" in n and not n.endswith("#2"):
+                    if _base_type(f.ret_ty) == self_ty and "impl at" in n and not n.endswith("#2"):
                         out.append(n)
                     continue
                 p1 = f.locals.get(1, "")
                 if _base_type(p1) != self_ty and "impl at" in n:
                     # associated function without self (e.g. Type::new): accept when the return type names the type
-                    if self_ty not in f.ret_ty:
+                    if _base_type(f.ret_ty) != self_ty or _base_type(p1) == _base_type(f.ret_ty):
                         continue
             else:
                 if "impl at" in n:
